@@ -241,6 +241,20 @@ def check_stats(c):
             require(torch.equal(user, last), "overwrite", "with overwrite=True the user's initial_state must hold the final chain states")
         else:
             require(torch.equal(user, user_keep), "initial-state-mutated", "the user's initial_state was modified although overwrite=False")
+    # other public entry points: Observable.sample (= apply of what the state samples) and System.statistics_from_samples
+    probe = R.rows_from_indices([k % (2 ** n) for k in range(5)], n)
+    for o in obs:
+        torch.manual_seed(c["seed"] % 1000 + 17)
+        direct = o.apply(state, orig(k=2, num_samples=1, initial_state=probe.clone(), overwrite=False)).double()
+        torch.manual_seed(c["seed"] % 1000 + 17)
+        via = o.sample(state, 2, initial_state=probe.clone()).double()
+        require(direct.shape == via.shape and bool(torch.all((direct - via).abs() <= 1e-12 * (1 + direct.abs()))), "observable.sample",
+                f"{o.name}.sample(...) is not apply() of the states the model samples under the same seed")
+    sys_fs = System(*obs).statistics_from_samples(state, probe.clone())
+    for o in obs:
+        alone = o.statistics_from_samples(state, probe.clone())
+        require(set(sys_fs[o.name].keys()) == set(alone.keys()) and all((sys_fs[o.name][k_] == alone[k_]) or (sys_fs[o.name][k_] != sys_fs[o.name][k_] and alone[k_] != alone[k_]) for k_ in alone),
+                "system.statistics_from_samples", f"System.statistics_from_samples gives {o.name} a result different from the observable alone")
     nt = (draws >= 2 and ns % chains != 0) or chains == 1
     return {"nontrivial": nt, "labels": [f"type={c['type']}", "mode=" + c["mode"], "system" if c["system"] else "single"] + (["chains=1"] if chains == 1 else []) + [f"draws>=2"] * (draws >= 2)}
 
